@@ -68,7 +68,7 @@ def node_strategy():
         "pad": st.integers(0, 2),
         "ro": st.booleans(),
         "root": st.sampled_from([""] * 20 + ["u", "u", "retain", "retain", "init", "init", "fini", "preinit", "note", "note"]),
-        "edges": st.lists(st.tuples(st.integers(0, MAXN - 1), st.integers(0, 5)).map(list), max_size=3),
+        "edges": st.lists(st.tuples(st.integers(0, MAXN - 1), st.integers(0, 8)).map(list), max_size=3),
         "ss": st.sampled_from([-1, -1, -1, -1, 0, 1]),       # function walks start/stop set K
         "member": st.sampled_from([-1, -1, -1, 0, 1]),       # function is registered in set K
     })
@@ -79,7 +79,7 @@ def case_strategy(tier):
         "mode": st.sampled_from(["static", "static", "pie", "shared"]),
         "ntu": st.integers(2, 4),
         "nodes": st.lists(node_strategy(), min_size=4, max_size=14 if tier == "quick" else 30),
-        "main_edges": st.lists(st.tuples(st.integers(0, MAXN - 1), st.integers(0, 5)).map(list), min_size=1, max_size=3),
+        "main_edges": st.lists(st.tuples(st.integers(0, MAXN - 1), st.integers(0, 8)).map(list), min_size=1, max_size=3),
         "export_dynamic": st.booleans(),
         "gc_flag": st.sampled_from(["explicit", "default"]),
         "ssflag": st.booleans(),          # pass -z nostart-stop-gc to wild too
@@ -156,7 +156,7 @@ class Graph:
             return [tgt["i"], "ptr"]
         vias = VIA_FF if tgt["kind"] == "f" else VIA_FD
         via = vias[v % len(vias)]
-        if v % 9 == 8:
+        if v >= 7:
             # A relocation that needs no value (R_X86_64_NONE, as emitted for e.g. personality/marker
             # references): a pure GC edge, nothing is called or read through it at run time.
             return [tgt["i"], "none"]
